@@ -131,6 +131,21 @@ def _get_valid_filename(string: str) -> str:
     return "".join(c for c in string if (c.isalnum() or c in "._- "))
 
 
+def _unique_filename_string(key: str, used_strings: set[str]) -> str:
+    """Generate a valid filename string for key distinct from strings already used.
+
+    Distinct keys can map to the same valid filename string (for example `a/b` and
+    `ab`) in which case a numeric suffix is added to keep the file names distinct.
+    """
+    key_str = _get_valid_filename(str(key))
+    unique_key_str, suffix = key_str, 0
+    while unique_key_str in used_strings:
+        suffix += 1
+        unique_key_str = f"{key_str}_{suffix}"
+    used_strings.add(unique_key_str)
+    return unique_key_str
+
+
 def _generate_memmap_filenames(
     dir_path: str,
     prefix: str,
@@ -269,6 +284,7 @@ def _init_stats(
 ) -> dict[str, dict[str, list[ArrayLike]]]:
     """Initialize dictionary of per-transition chain statistics array dicts."""
     stats = {}
+    used_filename_strings = set()
     for trans_key, transition in transitions.items():
         if transition.statistic_types is not None:
             stats[trans_key] = {}
@@ -279,7 +295,9 @@ def _init_stats(
                         for filename in _generate_memmap_filenames(
                             memmap_path,
                             "stats",
-                            f"{trans_key}_{key}",
+                            _unique_filename_string(
+                                f"{trans_key}_{key}", used_filename_strings
+                            ),
                             range(n_chain),
                         )
                     ]
@@ -299,11 +317,17 @@ def _init_traces(
     """Initialize dictionary of chain trace arrays."""
     traces = {}
     n_chain = len(init_states)
+    # Map from keys to distinct strings used in the memory-map file names
+    filename_strings = {}
     for trace_func in trace_funcs:
         for key, val in trace_func(init_states[0]).items():
             array_val = np.array(val) if np.isscalar(val) else val
             init = np.nan if np.issubdtype(array_val.dtype, np.inexact) else 0
             if use_memmap:
+                if key not in filename_strings:
+                    filename_strings[key] = _unique_filename_string(
+                        key, set(filename_strings.values())
+                    )
                 traces[key] = [
                     _open_new_memmap(
                         filename,
@@ -314,7 +338,7 @@ def _init_traces(
                     for filename in _generate_memmap_filenames(
                         memmap_path,
                         "trace",
-                        key,
+                        filename_strings[key],
                         range(n_chain),
                     )
                 ]
